@@ -1,7 +1,7 @@
 SPECIFICATION Spec
 CONSTANTS
-  Depth = 3
-  MaxStmts = 3
+  Depth = 2
+  MaxStmts = 2
   Export = TRUE
 INVARIANT Inv
 CHECK_DEADLOCK FALSE
